@@ -18,8 +18,9 @@ import (
 )
 
 type c04Op struct {
-	Kind   string `json:"kind"` // draw | open | close | restart
+	Kind   string `json:"kind"` // draw | open | close | restart | dropcoll
 	Bucket string `json:"bucket,omitempty"`
+	Named  bool   `json:"named,omitempty"` // draw: write to the named collection s1.c1 instead of the default one
 	Clock  uint64 `json:"clock,omitempty"`
 	Commit bool   `json:"commit,omitempty"`
 }
@@ -65,6 +66,7 @@ func genC04(r *rand.Rand) c04Input {
 			return cur
 		}
 	}
+	useColls := r.Intn(2) == 0
 	for i := 0; i < n; i++ {
 		b := names[r.Intn(len(names))]
 		switch x := r.Intn(20); {
@@ -74,14 +76,21 @@ func genC04(r *rand.Rand) c04Input {
 			in.Ops = append(in.Ops, c04Op{Kind: "close", Bucket: b})
 		case x == 4 && in.OnDisk:
 			in.Ops = append(in.Ops, c04Op{Kind: "restart"})
+		case x == 5 && useColls:
+			in.Ops = append(in.Ops, c04Op{Kind: "dropcoll", Bucket: b})
+			if in.OnDisk && r.Intn(2) == 0 {
+				// the newest CAS may have been issued by the dropped collection: restart right away
+				in.Ops = append(in.Ops, c04Op{Kind: "restart"}, c04Op{Kind: "open", Bucket: b})
+			}
 		default:
-			in.Ops = append(in.Ops, c04Op{Kind: "draw", Bucket: b, Clock: nextClock(), Commit: r.Intn(5) != 0})
+			in.Ops = append(in.Ops, c04Op{Kind: "draw", Bucket: b, Clock: nextClock(), Commit: r.Intn(5) != 0, Named: useColls && r.Intn(2) == 0})
 		}
 	}
 	return in
 }
 
 var c04Serial int64
+var c04Named = dsName("s1.c1")
 
 func execC04(in c04Input, scratch string) (Case, error) {
 	c := Case{Input: in}
@@ -135,6 +144,12 @@ func execC04(in c04Input, scratch string) (Case, error) {
 			}
 			handles[op.Bucket] = nil
 			cells["close"] = true
+		case "dropcoll":
+			ops = append(ops, C("CDropColl", S(op.Bucket)))
+			if hs := handles[op.Bucket]; len(hs) > 0 {
+				_ = hs[0].DropDataStore(c04Named)
+				cells["dropcoll"] = true
+			}
 		case "restart":
 			ops = append(ops, C("CRestart"))
 			for b, hs := range handles {
@@ -169,6 +184,14 @@ func execC04(in c04Input, scratch string) (Case, error) {
 			ds := hs[0].DefaultDataStore()
 			if ds == nil {
 				return c, fmt.Errorf("nil default data store on open bucket %s", op.Bucket)
+			}
+			if op.Named {
+				nds, err := hs[0].NamedDataStore(c04Named)
+				if err != nil {
+					return c, fmt.Errorf("NamedDataStore: %w", err)
+				}
+				ds = nds
+				rel = "named-" + rel
 			}
 			if op.Commit {
 				if err := ds.SetRaw("k", 0, nil, []byte("v")); err != nil {
